@@ -442,6 +442,9 @@ func init() {
 						{{{K: "MkdirAll", P: "/w/a/x", Perm: 0o755}}, {{K: "Symlink", P: "zz", Q: "/w/a"}}, {{K: "Remove", P: "/w/a"}}},
 						{{{K: "MkdirAll", P: "/w/a/x/y", Perm: 0o755}}, {{K: "Symlink", P: "d", Q: "/w/a"}, {K: "Remove", P: "/w/a"}}, {{K: "Rename", P: "/w/d", Q: "/w/e"}}},
 						{{{K: "Link", P: "/w/a", Q: "/w/d/l"}}, {{K: "Symlink", P: "b", Q: "/w/a"}, {K: "Remove", P: "/w/a"}}, {{K: "Rename", P: "/w/d", Q: "/w/e"}}},
+						// the target of the link comes and goes again between the walks of MkdirAll (thorough seed 2, round 6)
+						{{{K: "MkdirAll", P: "/w/a/x", Perm: 0o755}}, {{K: "OpenWriteClose", P: "/w/b", Flag: syscall.O_WRONLY | syscall.O_CREAT | syscall.O_EXCL, Perm: 0o644}, {K: "Remove", P: "/w/b"}}, {{K: "Symlink", P: "/w/b", Q: "/w/a"}}},
+						{{{K: "MkdirAll", P: "/w/a/x", Perm: 0o755}}, {{K: "Mkdir", P: "/w/d/c", Perm: 0o755}, {K: "Remove", P: "/w/d/c"}}, {{K: "Symlink", P: "/w/d/c", Q: "/w/a"}}},
 					}
 					for _, progs := range fixed {
 						for ti, tree := range trees {
